@@ -272,7 +272,17 @@ def table_check(ctx: Ctx, rule: str, f: FuncInfo, paths: list[absint.Path], atom
     seen_rows = set()
     for p in paths:
         obs = observe(p)
-        for val in absint.completions(p, atoms, lambda k, _p=p: absint.entails(ctx.repo, f, _p, k)):
+        try:
+            vals = list(absint.completions(p, atoms, lambda k, _p=p: absint.entails(ctx.repo, f, _p, k)))
+        except absint.AmbiguousAtom as e:
+            # the code evaluates one predicate of the table at two program points (with a mutation in between) and the
+            # outcomes differ on this path: the specification table has a single evaluation point => not the table's structure
+            bad += 1
+            if bad <= max_report:
+                ctx.ob(rule, f'{what}: every table predicate has one evaluation point per path', False, loc=f.loc(),
+                       construct=f'{f.qualname}:table:evaluation-points', detail=str(e)[:300])
+            continue
+        for val in vals:
             n += 1
             exp = spec(val)
             if exp is SKIP:
